@@ -70,25 +70,18 @@ def live(o, left=None):
     """descriptor -> object handed to algopy (fresh copies, so nothing is shared between calls)"""
     k = o['kind']
     if k == 'utpm':
-        return UTPM(o['data'].copy())
+        return UTPM(ref.relayout(o['data'], o.get('lay')))
     if k == 'alias':
         how = o['how']
         if how == 'self':
             return left
         return UTPM(ref.alias_view(left.data, how))
-    if k in ref.ARRAY_KINDS:
-        return np.array(o['v'])
-    return typed(k, o['v'])
-
-
-_TYPES = {'pyint': int, 'pyfloat': float, 'pycomplex': complex, 'np.float64': np.float64, 'np.float32': np.float32,
-          'np.int64': np.int64, 'np.complex128': np.complex128}
+    return ref.const_value(o)
 
 
 def typed(kind, v):
-    """scalar of exactly the type the kind names (the JSON codec maps numpy.float64 / numpy.complex128, which subclass
-    float / complex, to the Python types; the kind string is what fixes the type)"""
-    return _TYPES[kind](v)
+    """scalar of exactly the type the kind names (descriptors store plain Python numbers; the kind string fixes the type)"""
+    return ref._TYPES[kind](v)
 
 
 def unalias(o, Ldata):
@@ -100,20 +93,26 @@ def unalias(o, Ldata):
 
 def promote(o, D, P, cplx):
     """constant operand -> the degree-zero polynomial it stands for (same shape), as a UTPM"""
-    c = np.asarray(o['v'])
+    c = np.asarray(ref.const_value(o))
     dt = np.complex128 if (cplx or c.dtype.kind == 'c') else np.float64
     data = np.zeros((D, P) + c.shape, dtype=dt)
-    data[0] = c
+    data[0] = c.astype(dt)
     return UTPM(data)
 
 
 def _desc(o):
     if o['kind'] == 'utpm':
-        return 'UTPM%s%s' % (tuple(o['data'].shape[2:]), 'c' if np.iscomplexobj(o['data']) else '')
+        return 'UTPM%s%s%s' % (tuple(o['data'].shape[2:]), 'c' if np.iscomplexobj(o['data']) else '',
+                               ('/' + o['lay']) if o.get('lay') not in (None, 'C') else '')
     if o['kind'] == 'alias':
         return 'alias:' + o['how']
-    if o['kind'] in ref.ARRAY_KINDS:
-        return '%s%s' % (o['kind'], tuple(o['v'].shape))
+    lay = ('/' + o['lay']) if o.get('lay') not in (None, 'C') else ''
+    if o['kind'].startswith('ndx.'):
+        return 'ndarray[%s]%s%s' % (o['dt'], tuple(np.shape(o['v'])), lay)
+    if o['kind'].startswith('npx.'):
+        return '%s(%r)' % (o['dt'], ref.const_value(o))
+    if ref.is_array_kind(o['kind']):
+        return '%s%s%s' % (o['kind'], tuple(o['v'].shape), lay)
     return '%s(%r)' % (o['kind'], o['v'])
 
 
@@ -752,7 +751,7 @@ def _nontrivial(case):
         return True
     S = ref.result_shape(L, R)
     for o in (L, R):
-        if (o['kind'] == 'utpm' or o['kind'] in ref.ARRAY_KINDS) and ref.opd_shape(o) != S:
+        if (o['kind'] == 'utpm' or ref.is_array_kind(o['kind'])) and ref.opd_shape(o) != S:
             return True
     return False
 
@@ -792,7 +791,7 @@ def _classes(case):
     S = ref.result_shape(L, Ri)
     c.append('result-rank=%d' % len(S))
     sl, sr = ref.opd_shape(L), ref.opd_shape(Ri)
-    arrays = [o for o in (L, Ri) if o['kind'] == 'utpm' or o['kind'] in ref.ARRAY_KINDS]
+    arrays = [o for o in (L, Ri) if o['kind'] == 'utpm' or ref.is_array_kind(o['kind'])]
     if len(arrays) == 2:
         if sl == sr:
             c.append('bcast=none')
